@@ -3,7 +3,7 @@
 Nothing in here looks at formulaic.  A *frame spec* is a plain json-able dict
 
     {"n": <rows>,
-     "cols": [{"name": "A", "kind": "cat", "flavor": "category"|"object"|"str",
+     "cols": [{"name": "A", "kind": "cat", "flavor": "category"|"object"|"str"|"int64"|"bool",
                "levels": [...level order...], "values": [...]},          # categorical
               {"name": "a", "kind": "num", "dtype": "float"|"int", "values": [...]}]}
 
@@ -118,17 +118,18 @@ def crossed_frame_spec(rng: random.Random, cats, nums, replicates: int, integer:
     """Fully crossed design: every combination of levels of `cats` occurs `replicates` times;
     numeric columns get generic pairwise distinct values (integers when `integer`).
 
-    cats: list of (name, nlevels, flavor); nums: list of names.
+    cats: list of (name, nlevels, flavor[, level_labels]); nums: list of names.
     """
-    level_lists = [LEVEL_POOL[name][:nlev] for name, nlev, _ in cats]
+    # a 4th tuple element gives the level labels (any hashable python values, in level order)
+    level_lists = [list(c[3]) if len(c) > 3 else list(LEVEL_POOL[c[0]][: c[1]]) for c in cats]
     combos = list(itertools.product(*level_lists)) if cats else [()]
     rows = [c for c in combos for _ in range(replicates)]
     if shuffle_rows:
         rng.shuffle(rows)
     n = len(rows)
     cols = []
-    for j, (name, nlev, flavor) in enumerate(cats):
-        cols.append(cat_col(name, flavor, LEVEL_POOL[name][:nlev], [r[j] for r in rows]))
+    for j, c in enumerate(cats):
+        cols.append(cat_col(c[0], c[2], level_lists[j], [r[j] for r in rows]))
     for name in nums:
         if integer:
             cols.append(num_col(name, "int", generic_ints(rng, n, 2, 97)))
@@ -146,6 +147,8 @@ def build_column(col):
             return pandas.Series(col["values"], dtype=object)
         if col["flavor"] == "str":
             return pandas.Series(col["values"], dtype="str")
+        if col["flavor"] in ("int64", "bool"):  # plain numpy column; categorical only when written C(name)
+            return numpy.array(col["values"], dtype=col["flavor"])
         raise ValueError(col["flavor"])
     if col["dtype"] == "int":
         return numpy.array(col["values"], dtype="int64")
@@ -165,6 +168,8 @@ def frame_code(spec, var: str = "df") -> str:
                 e = f"pandas.Categorical({c['values']!r}, categories={c['levels']!r})"
             elif c["flavor"] == "object":
                 e = f"pandas.Series({c['values']!r}, dtype=object)"
+            elif c["flavor"] in ("int64", "bool"):
+                e = f"numpy.array({c['values']!r}, dtype={c['flavor']!r})"
             else:
                 e = f"pandas.Series({c['values']!r}, dtype='str')"
         elif c["dtype"] == "int":
